@@ -571,6 +571,8 @@ def onRemoteTimeout (k : Keys) (c : RCfg) (t : TimeoutMsg) : M Unit := do
     | none => return
     | some vs => if !verify E.T E.cfg vs (viewMsg t.view) then return
     if c.agg then
+      -- the aggregate QC pairs every signer with its high QC: a timeout without one is not accepted
+      if t.si.qc.isNone then return
       if !signedBy t.msgSig t.id then return
       match t.msgSig with
       | none => return
